@@ -67,7 +67,7 @@ struct inst {
   int alive, external;
 };
 
-static struct inst I[MAXI];
+static struct inst I[MAXI + 1]; /* I[MAXI]: never alive, target of an invalid @k */
 static int ninst, cur;
 
 /* ---- shared output area -------------------------------------------------------------------- */
@@ -350,8 +350,8 @@ static void run_history(char *s, char *e) {
     case 'i': do_create_internal(); break;
     case '@': {
       int k = atoi(arg);
-      if (k >= 0 && k < ninst) cur = k;
-      lprintf("@:%d", cur);
+      cur = (k >= 0 && k < ninst) ? k : MAXI;
+      lprintf("@:%d", cur == MAXI ? -1 : cur);
       break;
     }
     case 'd':
